@@ -17,6 +17,7 @@ from .. import gen
 from ..ref import midi1
 
 ID = 'C03'
+ANCHORS = ['mido.messages.checks', 'mido.messages.messages', 'mido.messages.specs']
 LEVEL = 'exploration'
 RULE = ('grid: every attribute (and time) of every type x a value pool (both range '
         'limits and the values just beyond, huge ints, wrong types, equal-valued '
